@@ -1,6 +1,10 @@
 HOOK_COMMITS = []
 NOTES = "Model checking = bounded exhaustive exploration of the real code against reference models; see DESIGN.md. Exit 0 held / 1 violation / >=2 machinery failure."
 ENGINES = [
+    {"name": "vc_md", "path": "harness/src/engines/vc_md.rs", "serves_properties": ["C06"],
+     "kind_free_text": "stateless exhaustive enumeration of Markdown documents vs reference tokenizer (harness/src/refmodel/mdtok.rs)"},
+    {"name": "vc_cram", "path": "harness/src/engines/vc_cram.rs", "serves_properties": ["C07"],
+     "kind_free_text": "stateless exhaustive enumeration of Cram documents vs reference tokenizer (harness/src/refmodel/cramtok.rs)"},
     {"name": "vc_config", "path": "harness/src/engines/vc_config.rs", "serves_properties": ["C16", "C17"],
      "kind_free_text": "stateless exhaustive enumeration of layer assignments / configurations through real merge, render and parse code"},
     {"name": "vc_expect", "path": "harness/src/engines/vc_expect.rs", "serves_properties": ["C08"],
@@ -52,5 +56,15 @@ CHECKS.append(
      "technique": "exhaustive enumeration of configurations (all key subsets; each key's full value alphabet; value pairs) through render -> real parser round trips",
      "text": "Every enumerated TestCaseConfig/DocumentConfig is rendered by to_yaml_one_liner (placed after the fence language as the generator does) and by serde_yaml (also as front-matter) and read back by the real MarkdownParser / serde; the result must equal the original (after layering on the format default).",
      "note": "value alphabets as listed in the evidence bound; environment variable names are plain identifiers"})
+CHECKS.append(
+    {"id": "C06", "engine": "vc_md", "category": "exploration", "design_ref": "DESIGN.md §2 C06",
+     "technique": "bounded exhaustive enumeration of Markdown documents (all line sequences over 24 line kinds; all segment sequences with every truncation) through the real MarkdownParser, compared with an independently written reference tokenizer",
+     "text": "Every document of the two exhaustive families (LF and CRLF) is parsed by the real MarkdownParser::parse: no panic, no hang, and the result is Err or exactly the reference tokenizer's tests (shell expression, expectation lines, exit code, inline config layered on front-matter defaults, 1-based `$` line, title when unambiguous); unterminated fences/front-matter must be reported or read to the end.",
+     "note": "bounded document length over a line-kind alphabet; constructs the docs do not define only have to not crash (counted as unspecified); Err always acceptable"})
+CHECKS.append(
+    {"id": "C07", "engine": "vc_cram", "category": "exploration", "design_ref": "DESIGN.md §2 C07",
+     "technique": "bounded exhaustive enumeration of Cram documents (all line sequences over 17 line kinds, deeper on an 8-kind core) through the real CramParser vs a reference tokenizer",
+     "text": "Every line sequence up to the bound (LF, CRLF, with/without final newline) is parsed by the real CramParser (cram-compat expectation maker): no panic, and Err or exactly one test per indented `$` line with the reference's command, continuations, expectation lines (two spaces removed, other whitespace kept), exit code, title, line number and the Cram default config.",
+     "note": "bounded document length; tests directly preceded by orphan body lines are unspecified and not compared; Err always acceptable"})
 claimed = {c["id"] for c in CHECKS}
 NOT_APPLICABLE = [{"property_id": p, "reason": "check not built yet (work in progress; planned in DESIGN.md)"} for p in ALL if p not in claimed]
